@@ -477,5 +477,47 @@ fn main() {
         let data = gen_data(&mut r, "mixed", if thorough { 2_000_000 } else { 700_000 });
         emit(&mut r, "lzma2", &o, &data, None, "long");
     }
+    // (4) every prefix of small multi-unit files of every format (cuts inside magic bytes, headers, trailers, index,
+    //     padding and between members / blocks / chunks): same bytes, same error kind in every configuration
+    for (fi, fmt) in ["lzip", "xz", "lzma2", "lzma"].iter().enumerate() {
+        let mut r = Rng(rng.next());
+        let o = Opts { dict: 4096, lc: if *fmt == "lzip" { 3 } else { 2 }, lp: 0, pb: 2, normal: fi % 2 == 0, nice: 32, bt4: fi % 2 == 1, depth: 4 };
+        let mut data = gen_data(&mut r, "text", if thorough { 13_000 } else { 9_000 });
+        for k in 0..40 {
+            data[4090 + k] = r.next() as u8;
+        }
+        if let Ok(c) = encode(fmt, &o, &data, Some(4096)) {
+            idx_cell.set(idx_cell.get() + 1);
+            let idx = idx_cell.get();
+            println!("case {idx} cutall {fmt} {} c4096 len={} enc {}:{:016x}", o.sig(), data.len(), c.len(), fnv(&c));
+            for k in 0..c.len() {
+                println!("case {idx} cutall@{k} dec {}", decode(fmt, &o, &c[..k], data.len() + 64));
+            }
+        }
+    }
+    // (5) BCJ2: complete streams, a main stream that runs dry before the announced size, short range-coder stream
+    {
+        let mut r = Rng(rng.next());
+        let main: Vec<u8> = (0..300).map(|_| (r.next() % 200) as u8).collect(); // no E8 / E9 / 0F 8x opcodes
+        let with_call: Vec<u8> = { let mut m = main.clone(); m[150] = 0xE8; m };
+        let rc = [0u8; 5];
+        let cases: Vec<(&str, &[u8], &[u8], &[u8], &[u8], u64)> = vec![
+            ("complete", &main, &[], &[], &rc, 300),
+            ("main-dry", &main, &[], &[], &rc, 500),
+            ("main-dry-1", &main, &[], &[], &rc, 301),
+            ("rc-short", &main, &[], &[], &rc[..3], 300),
+            ("rc-empty", &main, &[], &[], &[], 300),
+            ("call-dry", &with_call, &[], &[], &[0, 0xFF, 0xFF, 0xFF, 0xFF, 0, 0], 304),
+            ("call-short", &with_call, &[1, 2], &[], &[0, 0xFF, 0xFF, 0xFF, 0xFF, 0, 0], 304),
+            ("size-zero", &main, &[], &[], &rc, 0),
+        ];
+        for (name, m, c, j, rcs, size) in cases {
+            idx_cell.set(idx_cell.get() + 1);
+            let idx = idx_cell.get();
+            println!("case {idx} bcj2-{name} bcj2 - c0 len={size} enc {}:{:016x}", m.len(), fnv(m));
+            let res = show(catch_unwind(AssertUnwindSafe(|| read_all(lzma_rust2::filter::bcj2::BCJ2Reader::new(vec![m, c, j, rcs], size), 4096))));
+            println!("case {idx} bcj2 dec {res}");
+        }
+    }
     println!("end {}", idx_cell.get());
 }
